@@ -35,9 +35,11 @@ Served(l, p, cred) == Requirement(l, p) = "require_and_verify_peer_cert" /\ cred
 \* certificate A and serve with key pair B ("othercert"), or ignore the request altogether --
 \* announce no certificate and serve in plaintext ("nocert").  The host uses a plugin only if it
 \* announced a certificate and serves with exactly that one.
-ImpostorModes == {"othercert", "nocert"}
+\* "chain": announce A, serve with key pair B and append A's (public) certificate to the chain presented.
+\* What counts is the key the peer proves possession of: the leaf's.
+ImpostorModes == {"othercert", "nocert", "chain"}
 Announced(m) == IF m = "nocert" THEN "none" ELSE "A"
-Presented(m) == IF m = "nocert" THEN "plaintext" ELSE "B"
+Presented(m) == IF m = "nocert" THEN "plaintext" ELSE "B"      \* the leaf key
 HostUses(announced, presented) == announced # "none" /\ announced = presented
 HostAccepts(announced, presented) == HostUses(announced, presented)
 ASSUME \A m \in ImpostorModes : ~HostUses(Announced(m), Presented(m))
